@@ -88,8 +88,24 @@ impl Compound for C {
     }
 }
 
+/// a compound that stores a value under its own key while it is being loaded (re-entrant insert):
+/// the value inserted first must win, as for any get_or_insert on a present key
+pub struct R(pub i64, pub Tracked);
+impl Compound for R {
+    fn load(cache: AnyCache, id: &SharedString) -> Result<Self, BoxedError> {
+        let first = cache.get_or_insert::<R>(id, R(500, Tracked::new())).read().0;
+        Ok(R(first + 1, Tracked::new()))
+    }
+}
+impl Val for R {
+    fn val(&self) -> i64 {
+        self.0
+    }
+}
+
 #[derive(Clone, Copy, PartialEq, Eq, PartialOrd, Ord, Debug, Hash)]
 pub enum Ty {
+    R,
     A1,
     A2,
     V,
@@ -118,6 +134,10 @@ pub fn alphabet() -> Vec<Op> {
             v.push(Op::Load(t, id));
             v.push(Op::Owned(t, id));
         }
+        v.push(Op::Load(Ty::R, id));
+        v.push(Op::Owned(Ty::R, id));
+        v.push(Op::Cached(Ty::R, id));
+        v.push(Op::Remove(Ty::R, id));
         v.push(Op::Expect(Ty::A1, id));
         v.push(Op::Expect(Ty::C, id));
         for t in [Ty::A1, Ty::A2, Ty::V, Ty::C] {
@@ -252,6 +272,7 @@ pub fn apply<F: Fe>(fe: &mut F, any: bool, op: &Op) -> String {
     macro_rules! by_ty {
         ($ty:expr, $m:ident) => {
             match $ty {
+                Ty::R => $m!(R),
                 Ty::A1 => $m!(A1),
                 Ty::A2 => $m!(A2),
                 Ty::V => $m!(V),
@@ -458,6 +479,16 @@ impl Model {
             }
         }
         let v = match t {
+            Ty::R => {
+                // the load stores 500 under its own key first (if absent), then offers first+1:
+                // a cached `load` must keep (and return) the value stored first; `load_owned`
+                // hands the computed value to the caller, the stored one stays
+                let first = *self.map.entry((Ty::R, id.to_string())).or_insert(500);
+                if insert {
+                    return Ok(first);
+                }
+                first + 1
+            }
             Ty::A1 | Ty::A2 => file_val(w, t, id).map_err(|_| format!("Err(id={id})"))?,
             Ty::C => match self.load(w, Ty::A1, id, true, true) {
                 Ok(v) => v + 1000,
@@ -537,6 +568,7 @@ fn matrix<F: Fe>(fe: &F, any: bool) -> Model {
                 }
             }};
         }
+        g!(R);
         g!(A1);
         g!(A2);
         g!(V);
@@ -704,7 +736,8 @@ pub fn run(args: &Args, prop: &str) -> SubResult {
             res.add_note_count("bfs_depth_sum", maxd as u64);
         }
         // (2) every history without deduplication up to the depth bound
-        let d = if front == Front::TypedHot { 2 } else { depth };
+        // quick: full depth on the first world, one level less on the others
+        let d = if front == Front::TypedHot { 2 } else if !thorough && idx >= 6 { depth - 1 } else { depth };
         let mut idxs = vec![0usize; d];
         'outer: loop {
             let ops: Vec<Op> = idxs.iter().map(|i| alpha[*i].clone()).collect();
